@@ -77,6 +77,8 @@ class NgapRT(Stream):
         if getattr(self, "search", False):
             per_msg = 12            # a proof obligation broke: look harder for a value that exhibits it
         per_root = 2 if tier == "quick" else 10
+        if getattr(self, "search", False):
+            per_root = 40
         for rep in range(per_msg):
             for (cls, j, code, name) in A.ngap_messages(S):
                 g = A.Gen(S, rng)
